@@ -101,6 +101,10 @@ class PackSites:
                     if p.isidentifier():
                         self.stage_lists.add((n.frame.id, p))
                         self.insert_nodes[n.id] = (n.frame.id, p)
+                elif e[0] == 'DB_UPDATE' and e[2].get('bulk') and e[2].get('params'):
+                    p = e[2]['params']
+                    if p.isidentifier():
+                        self.stage_lists.add((n.frame.id, p))
                 elif e[0] == 'UNLINK' and in_area(K, e[1], 'loose'):
                     ke = loose_key_expr(K, n.ast.args[0], n.frame) if n.ast.args else None
                     hit = None
